@@ -323,6 +323,47 @@ Theorem vec_agg_text_parse :
 Proof. exact vec_agg_text_lemma. Qed.
 Print Assumptions vec_agg_text_parse.
 
+(** ... and of an unwrapped range aggregation:  max_over_time ( {selector} stages | unwrap bytes ( n ) [ 5m ] ) by ( a )  (the conversion
+    function keeps its type because the parenthesis follows) *)
+Theorem unwrap_agg_text_parse :
+  forall (anch : bytes -> bool) (re_names : bytes -> option (list bytes)) (dur : bytes -> option Z)
+         (o : rangeop) (sel : list matcher) (sts : list stage) (cv lb rtxt : bytes) (rns : Z) (off : option (bytes * Z)) (g : option grouping)
+         (l : list (ltok * bytes)),
+  map fst l = map ltok_of (print_unwrap_agg anch re_names kw_cls o sel sts cv lb rtxt rns off g) ->
+  seps_ok l ->
+  range_validate o None g true = true ->
+  Forall (text_matcher anch) sel -> Forall text_stage sts ->
+  chain_mid anch re_names sts (unwrap_tail cv lb rtxt rns off (plain TCloseParen (spelling TCloseParen) :: print_opt_grouping g)) ->
+  wf_unwrap cv -> text_name lb -> text_dur dur rtxt rns -> text_offset dur off ->
+  match g with Some g0 => text_names (g_labels g0) | None => True end ->
+  exists toks, lex (layout l) = LexOk toks /\
+    parse_tokens (map (tok_of anch re_names dur) toks) = Parsed (ERange o (unwrap_lr sel sts cv lb rns off) None g).
+Proof. exact unwrap_agg_text_lemma. Qed.
+Print Assumptions unwrap_agg_text_parse.
+
+(** non-vacuity, written without white space:  max_over_time({app="x"}|unwrap bytes(n)[5m])by(a) *)
+Example unwrap_agg_text_example :
+  let anch := fun _ : bytes => true in
+  let rn := fun _ : bytes => Some (@nil bytes) in
+  let m5 := ["5"%byte; "m"%byte] in
+  let dur := fun t : bytes => if bytes_eqb t m5 then Some 300000000000 else None in
+  let sel := [ {| m_label := ["a"%byte; "p"%byte; "p"%byte]; m_op := OpEq; m_value := ["x"%byte] |} ] in
+  let cv := ["b"; "y"; "t"; "e"; "s"]%byte in
+  let g := Some {| g_labels := [["a"%byte]]; g_without := false |} in
+  let toks := print_unwrap_agg anch rn kw_cls RangeOpMax sel [] cv ["n"%byte] m5 300000000000 None g in
+  let l := map (fun t => (ltok_of t, if ttype_eqb (ty t) TUnwrap then [" "%byte] else [])) toks in
+  seps_ok l /\ wf_unwrap cv /\ text_name ["n"%byte] /\
+  layout l = [ "m"; "a"; "x"; "_"; "o"; "v"; "e"; "r"; "_"; "t"; "i"; "m"; "e"; "("; "{"; "a"; "p"; "p"; "="; """"; "x"; """"; "}"; "|"; "u"; "n"; "w"; "r"; "a"; "p"; " ";
+               "b"; "y"; "t"; "e"; "s"; "("; "n"; ")"; "["; "5"; "m"; "]"; ")"; "b"; "y"; "("; "a"; ")" ]%byte /\
+  match lex (layout l) with
+  | LexOk lexed => parse_tokens (map (tok_of anch rn dur) lexed) = Parsed (ERange RangeOpMax (unwrap_lr sel [] cv ["n"%byte] 300000000000 None) None g)
+  | _ => False
+  end.
+Proof.
+  cbv zeta. split; [vm_compute; repeat split; try reflexivity; try discriminate; intros _; repeat split; reflexivity|].
+  split; [right; discriminate|]. split; [split; reflexivity|]. split; vm_compute; reflexivity.
+Qed.
+
 (** non-vacuity: the text of  sum without ( a , b ) ( rate ( { app = "x" } != "y" [ 5m ] offset 1h ) ) *)
 Example vec_agg_text_example :
   let anch := fun _ : bytes => true in
